@@ -31,7 +31,11 @@
 //   - trampoline strides below 1000 (bpf_ep_mgr refuses them); more than jump.MaxSubPrograms (24)
 //     sub-programs (the harness raises the split threshold and recompiles);
 //   - interpreter/kernel disagreements and interpreter faults on programs the kernel accepted are the
-//     harness's problem: inconclusive, never a violation.
+//     harness's problem: inconclusive, never a violation -- with ONE exception: a read of stack bytes never
+//     written in the current frame (the interpreter gives each tail-called sub-program a fresh, poisoned
+//     frame, which is all a BPF program may assume) is a violation (uninitialised-stack-read-by-helper),
+//     and so is the wrong verdict that follows from it (verdict-mismatch:fresh-stack-frame), even if the
+//     kernel at hand happens to reuse the caller's frame and so masks it.
 package main
 
 import (
@@ -195,6 +199,9 @@ func (x *genCtx) rule(inProfile bool) polprog.Rule {
 	} else {
 		r = x.g.SimpleRule(x.ipver)
 	}
+	if x.c.R.Intn(6) == 0 {
+		r = x.namedPortRule()
+	}
 	if r.Action == "" {
 		r.Action = "allow" // see "Deliberately not checked"
 	}
@@ -203,6 +210,35 @@ func (x *genCtx) rule(inProfile bool) polprog.Rule {
 	}
 	x.all = append(x.all, r)
 	return polprog.Rule{Rule: r, MatchID: x.id()}
+}
+
+// namedPortRule: a tcp/udp rule whose (not-)source or (not-)destination port list resolves to 2-4
+// named-port IP sets, optionally after a few numeric ports: the shape whose lookups form a loop that a
+// program split can cut in two.
+func (x *genCtx) namedPortRule() *proto.Rule {
+	r := x.c.R
+	pn := []string{"tcp", "udp"}[r.Intn(2)]
+	ru := &proto.Rule{Action: []string{"allow", "deny", "pass", "allow"}[r.Intn(4)], Protocol: rulegen.ProtoName(pn), RuleId: fmt.Sprintf("np%d", x.nextID)}
+	var sets []string
+	for i, n := 0, 2+r.Intn(3); i < n; i++ {
+		sets = append(sets, x.g.NewIPPortSet("n:", x.ipver, pn))
+	}
+	var ports []*proto.PortRange
+	for i, n := 0, r.Intn(3); i < n; i++ {
+		f := int32(1 + r.Intn(60000))
+		ports = append(ports, &proto.PortRange{First: f, Last: f + int32(r.Intn(2))})
+	}
+	switch r.Intn(6) {
+	case 0:
+		ru.SrcNamedPortIpSetIds, ru.SrcPorts = sets, ports
+	case 1:
+		ru.NotDstNamedPortIpSetIds, ru.NotDstPorts = sets, ports
+	case 2:
+		ru.NotSrcNamedPortIpSetIds, ru.NotSrcPorts = sets, ports
+	default:
+		ru.DstNamedPortIpSetIds, ru.DstPorts = sets, ports
+	}
+	return ru
 }
 
 func (x *genCtx) policy(name string, maxRules int, inProfile bool) polprog.Policy {
@@ -393,6 +429,43 @@ func withoutSCTPMembers(members map[string][]string) refpolicy.IPSets {
 }
 
 // ---------------------------------------------------------------------------------------------
+
+// freshFrameViolation: the interpreter gives every (tail-called) program a fresh, poisoned stack frame,
+// as a BPF frame is allowed to be, and records reads of bytes never written in that frame.  Such a read
+// through a helper argument (the IP set lookup key) is a violation in its own right -- verifiers before
+// Linux 6.3, and any unprivileged load, reject the program -- and so is a wrong verdict that follows from
+// it, even though one JIT happens to leave the caller's frame in place (which masks it in the kernel
+// executor).  Returns true if something was recorded.
+func freshFrameViolation(c *harness.Case, vmRes polexec.Result, want refVerdict, pkt string, ps polexec.PacketState, detail func() map[string]any) bool {
+	if len(vmRes.UninitReads) == 0 {
+		return false
+	}
+	c.Count("uninitialised_stack_reads", 1)
+	key := "uninitialised-stack-read"
+	for _, u := range vmRes.UninitReads {
+		if u.Kind == "uninit-stack-helper" {
+			key = "uninitialised-stack-read-by-helper"
+		}
+	}
+	d := detail()
+	d["packet"], d["state"] = pkt, fmt.Sprintf("%+v", ps)
+	d["reads"] = vmRes.UninitReads
+	d["sub_program_chain"] = vmRes.Chain
+	c.Violationf(key, d, "packet %s: the policy program reads stack bytes it never wrote in the current frame (%s); a tail-called sub-program starts with an unspecified frame",
+		pkt, vmRes.UninitReads[0].Error())
+	wantRC := int32(1)
+	if want.V == "deny" {
+		wantRC = 2
+	}
+	if vmRes.Verdict != want.V || (want.V != "xdp-pass" && vmRes.PolRC != wantRC) {
+		d2 := detail()
+		d2["packet"], d2["state"], d2["reference"] = pkt, fmt.Sprintf("%+v", ps), want
+		d2["interpreter"] = map[string]any{"verdict": vmRes.Verdict, "pol_rc": vmRes.PolRC, "chain": vmRes.Chain, "uninitialised_reads": vmRes.UninitReads}
+		c.Violationf("verdict-mismatch:fresh-stack-frame", d2,
+			"packet %s: with a fresh stack frame per sub-program the BPF program says %s (pol_rc=%d), reference says %s (%s)", pkt, vmRes.Verdict, vmRes.PolRC, want.V, want.Why)
+	}
+	return true
+}
 
 // safeCompile runs the builder and turns a panic into a value (the harness would record any panic as
 // a violation anyway; catching it here lets the case name the cause and go on).
@@ -762,9 +835,132 @@ func alignedSplit(c *harness.Case) {
 	}
 }
 
+// namedPortSplitSweep is a directed family: a small workload policy built around one rule whose port
+// list resolves to three named-port IP sets, compiled with every split threshold from 1 to 30 so that the
+// split point walks through the rule -- in particular into the named-port lookup loop after its first
+// lookup -- and probed with packets decided by each of the sets and by none.
+func namedPortSplitSweep(c *harness.Case) {
+	r := c.R
+	for _, ipver := range []uint8{4, 6} {
+		for variant := 0; variant < 6; variant++ {
+			g := rulegen.New(r, rulegen.Config{})
+			x := &genCtx{c: c, g: g, ipver: ipver}
+			pn := []string{"tcp", "udp"}[r.Intn(2)]
+			sets := []string{g.NewIPPortSet("n:", ipver, pn), g.NewIPPortSet("n:", ipver, pn), g.NewIPPortSet("n:", ipver, pn)}
+			np := &proto.Rule{Protocol: rulegen.ProtoName(pn), RuleId: "named"}
+			allowAll := &proto.Rule{Action: "allow", RuleId: "allow-all"}
+			var rl []*proto.Rule
+			switch variant {
+			case 0: // allow members, tier ends with deny
+				np.Action, np.DstNamedPortIpSetIds = "allow", sets
+				rl = []*proto.Rule{np}
+			case 1: // deny members, allow the rest
+				np.Action, np.DstNamedPortIpSetIds = "deny", sets
+				rl = []*proto.Rule{np, allowAll}
+			case 2: // allow everything but members
+				np.Action, np.NotDstNamedPortIpSetIds = "allow", sets
+				rl = []*proto.Rule{np}
+			case 3: // source side
+				np.Action, np.SrcNamedPortIpSetIds = "allow", sets
+				rl = []*proto.Rule{np}
+			case 4: // numeric ports first, then the sets
+				np.Action, np.DstNamedPortIpSetIds = "allow", sets
+				np.DstPorts = []*proto.PortRange{{First: 1, Last: 1}, {First: 7, Last: 9}}
+				rl = []*proto.Rule{np}
+			default: // a simple rule in front shifts the jump count
+				np.Action, np.NotSrcNamedPortIpSetIds = "deny", sets
+				rl = []*proto.Rule{g.SimpleRule(ipver), np, allowAll}
+			}
+			for _, ru := range rl {
+				if len(ru.DstIpSetIds) > 1 {
+					ru.DstIpSetIds = ru.DstIpSetIds[:1]
+				}
+			}
+			var prs []polprog.Rule
+			for _, ru := range rl {
+				prs = append(prs, polprog.Rule{Rule: ru, MatchID: x.id()})
+			}
+			rules := polprog.Rules{NoProfileMatchID: x.id(), Tiers: []polprog.Tier{{Name: "t", EndRuleID: x.id(), EndAction: polprog.TierEndDeny,
+				Policies: []polprog.Policy{{Kind: "GlobalNetworkPolicy", Name: "p", Rules: prs}}}}}
+			members := g.SetMembers()
+			ids := polexec.IDs{}
+			for i, name := range g.SetIDs() {
+				ids[name] = uint64(0x7000 + i)
+			}
+			refSets := g.IPSets()
+			pkts := g.Packets(np, ipver, 24)
+			for i := 0; i < 6; i++ {
+				pkts = append(pkts, g.UniversePacket(ipver))
+			}
+			for thr := 1; thr <= 30; thr++ {
+				opts := polexec.Options{IPv6: ipver == 6, AllowDenyJumps: true, AllowIdx: 1, DenyIdx: 2, EntryIdx: 3, Stride: 50, MaxJumps: thr, FlowLogs: thr%2 == 0}
+				detail := func() map[string]any {
+					return map[string]any{"directed": "split threshold sweep across a rule with three named-port IP sets", "variant": variant, "ipver": ipver,
+						"options": fmt.Sprintf("%+v", opts), "rules": dumpRules(rules), "ip_sets": members}
+				}
+				e, ok := build(c, rules, ids, opts, members, detail)
+				if !ok {
+					if lastBuildFailure == "unreachable-after-split" {
+						continue
+					}
+					return
+				}
+				c.Count("directed_named_port_split_builds", 1)
+				if len(e.vm.Programs()) > 1 {
+					c.Count("directed_named_port_split_builds_that_split", 1)
+				}
+				for _, p := range pkts {
+					p := p
+					ps := toState(p, p, false, false, r)
+					want := reference(rules, &p, &p, false, refSets)
+					vmRes, fault := e.vm.Run(ps, e.opts)
+					if fault != nil {
+						c.Inconclusive("interpreter fault: " + fault.Error())
+						e.close()
+						return
+					}
+					if freshFrameViolation(c, vmRes, want, p.String(), ps, detail) {
+						e.close()
+						return
+					}
+					got := vmRes
+					if e.k != nil {
+						kres, err := e.k.Run(ps, e.opts)
+						if err != nil {
+							c.Inconclusive("BPF_PROG_TEST_RUN: " + err.Error())
+							e.close()
+							return
+						}
+						got = kres
+					}
+					c.Count("directed_named_port_verdicts", 1)
+					wantRC := int32(1)
+					if want.V == "deny" {
+						wantRC = 2
+					}
+					if got.Verdict != want.V || got.PolRC != wantRC {
+						d := detail()
+						d["packet"], d["reference"] = p.String(), want
+						d["observed"] = map[string]any{"verdict": got.Verdict, "pol_rc": got.PolRC, "vm_chain": vmRes.Chain}
+						c.Violationf("verdict-mismatch", d, "packet %s: BPF program says %s (pol_rc=%d), reference says %s (%s)", p, got.Verdict, got.PolRC, want.V, want.Why)
+						e.close()
+						return
+					}
+				}
+				e.close()
+			}
+		}
+	}
+	c.NonTrivial("named-port-split-sweep")
+}
+
 func run(c *harness.Case) {
 	if c.Index == 5 {
 		alignedSplit(c)
+		return
+	}
+	if c.Index == 6 || (c.Thorough() && c.Index%500 == 6) {
+		namedPortSplitSweep(c)
 		return
 	}
 	r := c.R
@@ -893,6 +1089,9 @@ func run(c *harness.Case) {
 		var got polexec.Result
 		var vmRes polexec.Result
 		vmRes, fault := e.vm.Run(ps, e.opts)
+		if fault == nil && freshFrameViolation(c, vmRes, want, p.String(), ps, detail) {
+			return
+		}
 		if e.k != nil {
 			kres, err := e.k.Run(ps, e.opts)
 			if err != nil {
@@ -1006,7 +1205,7 @@ func main() {
 		Rule: "one case = one generated polprog.Rules (workload or host interface, 0-2 pre-DNAT / apply-on-forward / normal host tiers, host profiles, 0-3 workload tiers x 0-4 policies x 0-5 rules, 0-3 profiles, " +
 			"tier end action deny/pass/unset, SuppressNormalHostPolicy, 1/8 XDP; rules from rulegen: 10/40/80% full-featured (CIDRs, ports, named ports, selector and service IP sets, ICMP, negations, protocol names and numbers), rest simple; " +
 			"IPv4 2/3, IPv6 1/3; flow logs, policy debug, compiled-in or skb->cb jump indexes, 1/3 with a lowered split threshold (15-300 jumps: chained sub-programs), trampoline stride default/1000/1500/4000; " +
-			"case 7 mod 400 (thorough 7 mod 150) is a >8000-jump policy that splits at the real threshold; case 5 is directed: 120 variants of a two-tier workload sized so that the production split threshold is crossed one jump at a time around the end of the first tier, loaded into the kernel) x 40 (thorough 60) packet states: boundary packets of 8 rules, universe and random packets, " +
+			"case 7 mod 400 (thorough 7 mod 150) is a >8000-jump policy that splits at the real threshold; case 6 (thorough: also every 500th) is a directed sweep of split thresholds 1-30 over six small policies built around a rule with three named-port IP sets, IPv4 and IPv6; 1/6 of generated rules are tcp/udp rules with 2-4 named-port sets; case 5 is directed: 120 variants of a two-tier workload sized so that the production split threshold is crossed one jump at a time around the end of the first tier, loaded into the kernel) x 40 (thorough 60) packet states: boundary packets of 8 rules, universe and random packets, " +
 			"1/3 with a different pre-NAT destination, to/from-host flags, junk in pol_rc/rules_hit; non-trivial = at least one rule; distinct by (ip version, options, shape)",
 		Assumptions: []string{
 			"reference = verif/internal/refpolicy rule matching, arranged per the comments of polprog.Builder.Instructions",
@@ -1022,6 +1221,6 @@ func main() {
 		},
 		Run: run,
 		Floors: map[string]int64{"verdicts_compared": 1600, "programs_compiled": 60, "split_configurations": 5, "packets_through_several_sub_programs": 80,
-			"verdict_allow": 200, "verdict_deny": 1200, "verdict_xdp-pass": 50, "ip_set_entries": 1500, "directed_aligned_split_variants": 50},
+			"verdict_allow": 200, "verdict_deny": 1200, "verdict_xdp-pass": 50, "ip_set_entries": 1500, "directed_aligned_split_variants": 50, "directed_named_port_split_builds_that_split": 100, "directed_named_port_verdicts": 3000},
 	})
 }
